@@ -18,6 +18,7 @@ import (
 	"sort"
 
 	"verifmc/internal/ev"
+	"verifmc/internal/nohb"
 )
 
 type witness struct {
@@ -53,6 +54,10 @@ func better(a, b *witness) bool { // is a a smaller witness than b
 }
 
 func main() {
+	if nohb.IsWorker() {
+		nohb.WorkerMain(reentrantOps(), reentrantRepoDir())
+		return
+	}
 	ev.Main("C21", "model_checking", func(c *ev.Ctx) {
 		buildAlphabet()
 		if err := selfTestReference(); err != nil {
@@ -67,6 +72,10 @@ func main() {
 			var w witness
 			if err := json.Unmarshal(c.Replay, &w); err != nil {
 				c.Broken("bad witness: %v", err)
+			}
+			if w.Mode == "history" { // a read history of the optional readers (history.go): the family is small, re-run all of it
+				historyPhase(c)
+				return
 			}
 			sh := mkShape(w.Par)
 			lab := make([]int, len(w.Ops))
@@ -107,13 +116,22 @@ func main() {
 			"a continuation panicking with BuildError (becomes the Builder's error) or with another value (re-raised unchanged); "+
 			"(3) thorough only: directed programs with AddBytes of 2^24-1 / 2^24 octets (4-octet DER length, 3-octet length-prefix limit). "+
 			"Every program: built bytes == reference encoding, Bytes/BytesOrPanic agree, documented errors/panics, then read back with %d reader variants (values, Zone offsets, exact remainder after every op); programs of <= %d ops also built with NewFixedBuilder at capacity exact, exact with a 2-byte initial buffer, and short capacities "+
-			"(all c < needed when needed <= 8, else {0,1,needed-2,needed-1}); a case is non-trivial/distinct when it is a distinct program that builds without a documented error and is read back",
+			"(all c < needed when needed <= 8, else {0,1,needed-2,needed-1}); a case is non-trivial/distinct when it is a distinct program that builds without a documented error and is read back. "+
+			"(4) destination independence, input immutability, aliasing (dest.go): before every op of every derived read program is read for the verdict, the same op is read from a copy of the String with every distinct reader the variants use for it - "+
+			"into a zero destination, then into a second destination object holding each prior content of its kind (integers: all ones and 0x5b5a59.. in every octet; bool: true; *big.Int: -1, +-a 44-octet value; []byte / String / BitString / ObjectIdentifier / the two-destination readers: a longer non-empty value in a kept backing array with spare capacity and a one-element full one; time.Time: a zoned instant with nanoseconds, one before year 1; CopyBytes: buffers of the length to copy): "+
+			"reader's bool, remainder and (on success) value must equal the baseline's; after every read the String's bytes equal a copy taken before and the default handed to the optional readers (ONE object for all reads of the probe) still holds its value; then the harness writes through the result (slice elements, big.Int words + SetInt64): default unchanged, the baseline result in the other destination unchanged "+
+			"(a result that is a window of the input - cryptobyte's []byte results by design - is counted, input restored). ReadOptionalASN1's out is compared only for a present element. "+
+			"(5) read histories (history.go): for ReadOptionalASN1Integer into *int/*int8/*int16/*int32/*int64/*uint/*uint8/*uint16/*uint32/*uint64/*big.Int, ReadOptionalASN1OctetString, ReadOptionalASN1 (each with and without outPresent) and ReadOptionalASN1Boolean: "+
+			"two consecutive optional reads (tags [0], [1]; BOOLEAN twice) with the SAME destination object and the SAME default object in all 4 present/absent combinations, then a third read that finds its element absent; "+
+			"x defaults x first value x second value x prior content of the destination x follower {nothing, an OCTET STRING}; inputs from the reference encoders; after every step value / default returned, exact remainder, input bytes and default object unchanged, also after the harness wrote through the destination between the reads",
 			maxNodes, len(coreAll), len(containers), len(extAll), len(extContainers), len(ctxLeaves), len(allContainers), nVariants, fixedUpTo))
 		c.Assume("reference encodings of all ASN.1 leaves come from Go's encoding/asn1; DER headers of blocks from a hand-written X.690 encoder cross-checked against encoding/asn1 at start-up",
 			"the documented encodings (AddUintN: big-endian; length prefixes: big-endian byte count; AddASN1*: DER) are part of 'exact inverse': the built bytes are compared with the reference, not only read back",
 			"time values are compared as instants (time.Time.Equal) and by their Zone() offset, which AddASN1GeneralizedTime writes",
 			"an absent optional element followed by bytes that begin with the reader's tag is 'present' for the reader; when those bytes are not a well-formed element of the reader's type no verdict is given",
 			"Unwrite reaching into a completed length-prefixed block of the same Builder: statement and documentation are silent, no verdict",
+			"after a reader returned false the package documents nothing about the destination; for an absent element ReadOptionalASN1 documents nothing about out: neither is demanded",
+			"cryptobyte.String 'wraps a []byte slice': []byte, String and BitString.Bytes results may be windows of the input; they may never share storage with a default or with the result in another destination unless both are windows of the input",
 			"int is 64 bits (OID arcs, ReadASN1Enum)")
 
 		W := c.Workers()
@@ -335,6 +353,8 @@ func main() {
 		c.Transitions.Add(buildOps + reads)
 		c.Traces.Add(traces)
 		c.Evaluations.Add(oracle)
+		historyPhase(c)
+		reentrantPhase(c)
 		c.Set("alphabet_size", len(alphabet))
 		c.Set("core_letters", len(coreAll))
 		c.Set("extended_letters", len(extAll))
